@@ -152,7 +152,8 @@ def shape_workers_rel(cls, nworkers, common):
 
 
 def shapes(tier):
-    out = []
+    from checks import c03 as _c03
+    out = _c03.monotone_shapes(PROP, tier, resource_rules=True)
     thorough = tier == "thorough"
     for ename, el in RELEMENTS.items():
         for vi, variant in enumerate(el.variants):
